@@ -63,7 +63,9 @@ func (s *streamWS) SendMsg(v interface{}) error {
 
 	cur := reply.ProtoReflect()
 	for _, fd := range s.method.resp {
-		cur = cur.Mutable(localField(cur, fd)).Message()
+		// Read only: the reply belongs to the handler, which may share it
+		// between calls. An unset field reads as an empty message.
+		cur = cur.Get(localField(cur, fd)).Message()
 	}
 	msg := cur.Interface()
 
